@@ -126,10 +126,17 @@ class World:
         self.added = getattr(self, "added", set()) | {o}
         return {"ev": "add", "o": o, "crash": crash}
 
-    def build(self, copy):
-        ev = {"ev": "build", "copy": copy}
+    def build(self, copy, ctor=False):
+        """ctor (with copy): the copy is made by the Model constructor itself, Model(<added objects>, copy=True)"""
+        # (the constructor grows the graph by building a temporary model of the originals first, which objects frozen in a
+        # live model refuse: that route is only taken for free objects)
+        ctor = bool(ctor and copy and all(self.obj[o].model is None for o in closure(getattr(self, "added", set()), getattr(self, "uin", None))))
+        ev = {"ev": "build", "copy": copy, "ctor": ctor}
         try:
-            model = self.gb.build_model(copy=copy)
+            if ctor:
+                model = lsl.Model(list(self.gb.nodes) + list(self.gb.vars), copy=True)
+            else:
+                model = self.gb.build_model(copy=copy)
             self.n += 1
             cl = closure(self.added, getattr(self, "uin", None))
             if copy:
@@ -249,7 +256,7 @@ def random_trace(rng, nops=14, user_seed=False):
                 ev.append(w.add(rng.choice(objs + [3, 3])))
         elif r < 0.45:
             if w.n < 3 and (w.gb.nodes or w.gb.vars):
-                ev.append(w.build(rng.random() < 0.25))
+                ev.append(w.build(rng.random() < 0.25, ctor=rng.random() < 0.4))
         elif r < 0.6:
             ev.append(w.mutate(rng.choice(objs), rng.choice(World.MUTATORS)))
         elif r < 0.72 and live:
